@@ -31,7 +31,7 @@ pub struct Stack {
 }
 
 fn scratch() -> String {
-    let root = std::env::var("VERIF_SCRATCH").unwrap_or_else(|_| "/verif/.scratch/misc".into());
+    let root = std::env::var("VERIF_SCRATCH").unwrap_or_else(|_| format!("{}/.scratch/misc", std::env::var("VERIF_ROOT").unwrap_or_else(|_| "/verif".to_string())));
     let p = format!("{}/bk-{}-{}", root, std::process::id(), CTR.fetch_add(1, Ordering::SeqCst));
     p
 }
